@@ -188,6 +188,24 @@ class DefUse:
         return out
 
 
+def maximal_chains(e: ast.AST):
+    """Maximal Name/Attribute chains read in `e` (a.b.c is reported once, not
+    also as a.b and a); nested scopes are not entered."""
+    stack = [e]
+    first = True
+    while stack:
+        n = stack.pop()
+        if isinstance(n, (ast.Name, ast.Attribute)) and dotted(n) is not None:
+            if isinstance(getattr(n, "ctx", None), ast.Load):
+                yield n
+            continue
+        if isinstance(n, (ast.FunctionDef, ast.AsyncFunctionDef, ast.Lambda, ast.ClassDef)) \
+                and not first:
+            continue
+        first = False
+        stack.extend(reversed(list(ast.iter_child_nodes(n))))
+
+
 def names_loaded(e: ast.AST) -> Set[str]:
     out = set()
     for x in walk_local(e):
@@ -202,9 +220,8 @@ def depends_on(du: DefUse, expr: ast.AST, at: int, sources: Set[str],
     of the named locations (parameters, names, dotted chains)?  Follows local
     definitions transitively (flow-sensitive)."""
     seen = _seen if _seen is not None else set()
-    for x in walk_local(expr):
-        if isinstance(x, (ast.Name, ast.Attribute)) and \
-                isinstance(getattr(x, "ctx", None), ast.Load):
+    for x in maximal_chains(expr):
+        if True:
             d = dotted(x)
             if d is None:
                 continue
